@@ -62,6 +62,12 @@ def build_all(verbose=False):
         logs.append('[go build harness] rc=%d %.1fs\n%s' % (rc, dt, out))
         if rc != 0:
             return dict(ok=False, stage='harness-build', log='\n'.join(logs))
+        # the same harness under the Go race detector, for the concurrency streams
+        rc, out, dt = sh(['go', 'build', '-race', '-tags', 'verif', '-o', os.path.join(BUILD, 'harness-race'), '.'],
+                         timeout=900, cwd=os.path.join(ROOT, 'harness'), env=GOENV)
+        logs.append('[go build -race harness] rc=%d %.1fs\n%s' % (rc, dt, out))
+        if rc != 0:
+            return dict(ok=False, stage='harness-build', log='\n'.join(logs))
         # --- regenerated model pieces ---
         regen_dir = os.path.join(ROOT, 'tools', 'regen')
         if os.path.exists(os.path.join(regen_dir, 'main.go')):
@@ -158,7 +164,7 @@ def check_obligations(prop, allowed_axioms=()):
                 theorems=printed, problems=problems, out=out)
 
 
-def run_harness(stream, seed=None, n=None, replay=None, workdir=None, extra=()):
+def run_harness(stream, seed=None, n=None, replay=None, workdir=None, extra=(), race=False):
     """Run the Go harness; returns (cases, obs).  Handles the HANG protocol (exit 3 + -skip)."""
     cases_path = os.path.join(workdir, 'cases.%s.txt' % stream)
     obs_path = os.path.join(workdir, 'obs.%s.txt' % stream)
@@ -167,17 +173,26 @@ def run_harness(stream, seed=None, n=None, replay=None, workdir=None, extra=()):
             os.remove(p)
     skip = 0
     while True:
-        cmd = [os.path.join(BUILD, 'harness'), '-stream', stream, '-obs', obs_path, '-skip', str(skip)] + list(extra)
+        cmd = [os.path.join(BUILD, 'harness-race' if race else 'harness'), '-stream', stream, '-obs', obs_path, '-skip', str(skip)] + list(extra)
         if replay:
             cmd += ['-replay', replay]
         else:
             cmd += ['-seed', str(seed), '-n', str(n), '-cases', cases_path]
-        rc, out, dt = sh(cmd, timeout=3000, env=dict(os.environ, GOMAXPROCS=os.environ.get('GOMAXPROCS', '16')))
+        rc, out, dt = sh(cmd, timeout=3000, env=dict(os.environ, GOMAXPROCS=os.environ.get('GOMAXPROCS', '16'),
+                                                     GORACE='halt_on_error=1 exitcode=66'))
         obs = open(obs_path).read().split('\n') if os.path.exists(obs_path) else []
         if obs and obs[-1] == '':
             obs.pop()
         if rc == 3:
             skip = len(obs)
+            continue
+        if rc == 66:
+            # the race detector stopped the process inside the case after the last observation
+            m = re.search(r'WARNING: DATA RACE.*?(?=\n\n|\Z)', out, re.S)
+            rep = ' '.join((m.group(0) if m else out[-1500:]).split())[:1200]
+            with open(obs_path, 'a') as fo:
+                fo.write('RACE ' + rep + '\n')
+            skip = len(obs) + 1
             continue
         if rc != 0:
             raise RuntimeError('harness failed rc=%d: %s' % (rc, out[-2000:]))
@@ -317,7 +332,7 @@ def run_check(prop, tier, seed, replay=None):
                 jobs.append((s['name'], dict(seed=seed, n=n), 'generated'))
         for sname, kw, kind in jobs:
             scfg = next((s for s in streams if s['name'] == sname), dict(name=sname))
-            cases, obs = run_harness(sname, workdir=work, extra=scfg.get('extra', ()), **kw)
+            cases, obs = run_harness(sname, workdir=work, extra=scfg.get('extra', ()), race=scfg.get('race', False), **kw)
             total_cases += len(cases)
             model = run_model(cases) if have_driver else None
             nontriv = scfg.get('nontrivial', lambda c, o: True)
